@@ -130,6 +130,9 @@ class EmitterModel:
         self._sub = {}
         self._emit_memo = {}
         self.successions = {}
+        self.attr_errors = {}
+        self._ev_attrs = {}
+        self._helper_seen = set()
 
     def tick(self):
         self.budget -= 1
@@ -143,6 +146,162 @@ class EmitterModel:
             b = self.ev_mod.classes.get(cname)
             self._sub[k] = bool(a is not None and b is not None and a.is_subclass_of(b))
         return self._sub[k]
+
+    # ------------------------------------------------------------------ attributes of event objects
+    def event_attrs(self, kind):
+        """names readable on an event of class `kind`: what the __init__ found along the MRO stores on self (following
+        super().__init__ / Base.__init__(self, ...) calls), class-level names and methods."""
+        if kind in self._ev_attrs:
+            return self._ev_attrs[kind]
+        out = set(['__class__', '__dict__'])
+        k = self.ev_mod.classes.get(kind) if self.ev_mod is not None else None
+        if k is None:
+            raise AnalysisError('emitter model: event class %s not found' % kind)
+        mro = k.mro_classes()
+        for b in mro:
+            out |= set(b.methods)
+            for st in b.node.body:
+                if isinstance(st, ast.Assign):
+                    out |= {t.id for t in st.targets if isinstance(t, ast.Name)}
+
+        def init_of(i):
+            for j in range(i, len(mro)):
+                if '__init__' in mro[j].methods:
+                    return j
+            return None
+        i = init_of(0)
+        seen = set()
+        while i is not None and i not in seen:
+            seen.add(i)
+            f = mro[i].methods['__init__']
+            nxt = None
+            for n in ast.walk(f.node):
+                if isinstance(n, ast.Attribute) and isinstance(n.ctx, ast.Store) and isinstance(n.value, ast.Name) \
+                        and f.params and n.value.id == f.params[0]:
+                    out.add(n.attr)
+                if isinstance(n, ast.Call) and isinstance(n.func, ast.Attribute) and n.func.attr == '__init__':
+                    nxt = init_of(i + 1)
+                if isinstance(n, ast.Call) and norm(n.func) in ('setattr', 'self.__dict__.update', 'vars'):
+                    raise AnalysisError('emitter model: %s.__init__ stores attributes dynamically' % mro[i].name)
+            i = nxt
+        self._ev_attrs[kind] = out
+        return out
+
+    def scan_helper(self, name, kind):
+        """an opaque (non-control) method runs while the current event is of class `kind`: every `self.event.X` it can reach
+        with the isinstance tests on self.event decided for that class must name an attribute such an event has."""
+        if (name, kind) in self._helper_seen:
+            return
+        self._helper_seen.add((name, kind))
+        f = self.methods[name]
+        me = f.params[0] if f.params else 'self'
+        aliases = set()
+        for n in ast.walk(f.node):
+            if isinstance(n, ast.Assign) and len(n.targets) == 1 and isinstance(n.targets[0], ast.Name) \
+                    and norm(n.value) == me + '.event':
+                aliases.add(n.targets[0].id)
+        for n in ast.walk(f.node):
+            if isinstance(n, ast.Name) and isinstance(n.ctx, ast.Store) and n.id in aliases:
+                # an alias bound to anything else as well is not tracked
+                par = [a for a in ast.walk(f.node) if isinstance(a, ast.Assign) and n in a.targets]
+                if not par or norm(par[0].value) != me + '.event':
+                    aliases.discard(n.id)
+
+        def is_event(x):
+            return (isinstance(x, ast.Attribute) and x.attr == 'event' and isinstance(x.value, ast.Name) and x.value.id == me) \
+                or (isinstance(x, ast.Name) and x.id in aliases)
+
+        def expr(e):
+            """visit e in evaluation order; returns its truth value when the event class decides it, else None."""
+            if e is None:
+                return None
+            if isinstance(e, ast.BoolOp):
+                is_and = isinstance(e.op, ast.And)
+                unknown = False
+                for v in e.values:
+                    t = expr(v)
+                    if t is None:
+                        unknown = True
+                    elif t != is_and:
+                        return None if unknown else t
+                return None if unknown else is_and
+            if isinstance(e, ast.UnaryOp) and isinstance(e.op, ast.Not):
+                t = expr(e.operand)
+                return None if t is None else (not t)
+            if isinstance(e, ast.IfExp):
+                t = expr(e.test)
+                if t is not False:
+                    expr(e.body)
+                if t is not True:
+                    expr(e.orelse)
+                return None
+            if isinstance(e, ast.Call) and norm(e.func) == 'isinstance' and len(e.args) == 2 and is_event(e.args[0]):
+                classes = e.args[1].elts if isinstance(e.args[1], ast.Tuple) else [e.args[1]]
+                if all(isinstance(x, ast.Name) for x in classes):
+                    return any(kind == x.id or self.is_subclass(kind, x.id) for x in classes)
+                return None
+            if isinstance(e, ast.Call) and norm(e.func) in ('hasattr', 'getattr') and e.args and is_event(e.args[0]):
+                for a in e.args[1:]:
+                    expr(a)
+                return None
+            if isinstance(e, ast.Attribute) and is_event(e.value) and isinstance(e.ctx, ast.Load):
+                if e.attr not in self.event_attrs(kind):
+                    self.attr_errors.setdefault((e.attr, kind), (e.lineno, name))
+                return None
+            if isinstance(e, ast.Call) and isinstance(e.func, ast.Attribute) and isinstance(e.func.value, ast.Name) \
+                    and e.func.value.id == me and e.func.attr in self.methods and e.func.attr not in self.control:
+                for a in list(e.args) + [k.value for k in e.keywords]:
+                    expr(a)
+                self.scan_helper(e.func.attr, kind)
+                return None
+            if isinstance(e, (ast.Lambda, ast.GeneratorExp, ast.ListComp, ast.SetComp, ast.DictComp)):
+                for ch in ast.walk(e):
+                    if ch is not e and isinstance(ch, ast.Attribute) and is_event(ch.value) and isinstance(ch.ctx, ast.Load) \
+                            and ch.attr not in self.event_attrs(kind):
+                        self.attr_errors.setdefault((ch.attr, kind), (ch.lineno, name))
+                return None
+            for ch in ast.iter_child_nodes(e):
+                if isinstance(ch, ast.expr):
+                    expr(ch)
+            return None
+
+        def block(stmts):
+            """True when control cannot leave the block at its end."""
+            for st in stmts:
+                if isinstance(st, ast.If):
+                    t = expr(st.test)
+                    a = block(st.body) if t is not False else True
+                    b = block(st.orelse) if t is not True else True
+                    if a and b:
+                        return True
+                    continue
+                if isinstance(st, ast.While):
+                    t = expr(st.test)
+                    if t is not False:
+                        block(st.body)
+                    block(st.orelse)
+                    continue
+                if isinstance(st, ast.For):
+                    expr(st.iter)
+                    block(st.body)
+                    block(st.orelse)
+                    continue
+                if isinstance(st, ast.Try):
+                    block(st.body)
+                    for h in st.handlers:
+                        block(h.body)
+                    block(st.orelse)
+                    block(st.finalbody)
+                    continue
+                if isinstance(st, (ast.FunctionDef, ast.ClassDef)):
+                    continue
+                for ch in ast.iter_child_nodes(st):
+                    if isinstance(ch, ast.expr):
+                        expr(ch)
+                if isinstance(st, (ast.Return, ast.Raise, ast.Break, ast.Continue)):
+                    return True
+            return False
+        block(f.node.body)
 
     # ------------------------------------------------------------------ expressions -> [(value, cfg)]
     def ev(self, e, c, env):
@@ -164,7 +323,14 @@ class EmitterModel:
                 if e.attr in self.methods:
                     return [(('state', e.attr), c)]
                 return [(UNKNOWN, c)]
-            return [(UNKNOWN, c2) for v, c2 in self.ev(e.value, c, env)]
+            out = []
+            for v, c2 in self.ev(e.value, c, env):
+                if isinstance(v, Ev) and e.attr not in self.event_attrs(v.kind):
+                    # AttributeError: the run ends here with an exception that is not an EmitterError
+                    self.attr_errors.setdefault((e.attr, v.kind), (e.lineno, None))
+                    continue
+                out.append((UNKNOWN, c2))
+            return out
         if isinstance(e, ast.UnaryOp):
             out = []
             for v, c2 in self.ev(e.operand, c, env):
@@ -334,7 +500,10 @@ class EmitterModel:
         if isinstance(fn, ast.Attribute) and isinstance(fn.value, ast.Name) and fn.value.id == 'self' and fn.attr in self.methods:
             if fn.attr in self.control:
                 return self.call(fn.attr, e, c, env)
-            # opaque helper (writers, process_*, prepare_*): arguments evaluated for their effects, result unknown
+            # opaque helper (writers, process_*, prepare_*): arguments evaluated for their effects, result unknown; the
+            # attributes it reads from the current event must exist on an event of the current kind
+            if isinstance(c.cur, Ev):
+                self.scan_helper(fn.attr, c.cur.kind)
             cur = None
             if fn.attr == 'write_indicator' and e.args and isinstance(e.args[0], ast.Constant) and isinstance(e.args[0].value, str):
                 cur = e.args[0].value.strip()
@@ -744,6 +913,14 @@ def r_emitter_grammar(ctx, repo, max_len=7, slack=2):
     for (prev, cur), (line, what) in sorted(model.successions.items()):
         rule.fail('emitter-output|%s|%s' % (prev, cur), E.module.rel, line, E.qualname, 'write_indicator(%r)' % cur,
                   'on some well-formed event stream the emitter writes %s: the text does not parse back' % what)
+    for (attr, kind), (line, helper) in sorted(model.attr_errors.items()):
+        rule.fail('emitter-attr|%s|%s' % (attr, kind), E.module.rel, line, E.qualname + ('.' + helper if helper else ''),
+                  'self.event.%s' % attr,
+                  'on some event stream the emitter reads .%s from a %s, which has no such attribute: the caller gets an '
+                  'AttributeError where the stream should have been written or rejected with EmitterError' % (attr, SHORT.get(kind, kind)))
+    ctx.extra['emitter_grammar']['event_attribute_reads_typed'] = len(model._helper_seen)
+    if len(model._helper_seen) < 10:
+        raise AnalysisError('emitter model: only %d (helper, event class) pairs were type-checked' % len(model._helper_seen))
     if not extra and not missing:
         rule.ok('%s:%d' % (E.module.rel, E.node.lineno),
                 'all %d well-formed streams of length <= %d are processed, all %d ill-formed completions are rejected (%d emit transitions)'
